@@ -160,9 +160,12 @@ class CacheView(Table):
 
             # serve the remainder from the inner iterator
             it = iter(self.inner)
-            for row in islice(it, len(self.cache), None):
-                # maybe there's more room in the cache?
-                if not self.n or len(self.cache) < self.n:
+            start = len(self.cache)
+            for i, row in enumerate(islice(it, start, None), start):
+                # maybe there's more room in the cache? (only the iterator
+                # that is at the end of the cache may extend it)
+                if (not self.n or len(self.cache) < self.n) \
+                        and len(self.cache) == i:
                     self.cache.append(row)
                 yield row
 
